@@ -13,6 +13,7 @@ import (
 
 	"github.com/anacrolix/dht/v2"
 	"github.com/anacrolix/dht/v2/krpc"
+	"github.com/anacrolix/dht/v2/types"
 	"github.com/anacrolix/dht/v2/verifsched"
 
 	"verif/explore"
@@ -36,8 +37,13 @@ import (
 type linScn struct {
 	Name   string
 	Start  string   // tblStarts name
+	Pre    []string // events executed one at a time before the concurrent ones
 	Pend   []string // peers to which an own ping is pending before the events start
 	Events []string
+	Post   []string // events executed one at a time after the concurrent ones have settled
+	Store  bool     // with the bundled peer store
+	Tokens bool     // afterwards every token handed out is used by its recipient
+	Cfg    string   // tblCfgs name ("" = plain)
 }
 
 type linObs struct {
@@ -54,23 +60,32 @@ type linEnv struct {
 	// (the reply to a query that was handled just before the list arrived, a resend) is written or
 	// suppressed depending on where the installation falls inside the event - both are fine for the
 	// properties, so datagrams to these destinations are not part of the observation.
-	dropTo map[string]bool
-	y      *tblSys
-	pend   map[string]string // peer name -> tid of our pending ping
-	tokens map[string]string // peer name -> valid get_peers token
-	mark   int
+	dropTo     map[string]bool
+	y          *tblSys
+	post       []string
+	testTokens bool
+	pend       map[string]string // peer name -> tid of our pending ping
+	tokens     map[string]string // peer name -> valid get_peers token
+	mark       int
 }
 
 func linSetup(scn *linScn) (*linEnv, string) {
-	y := newTblSys(tblCfgs["plain"])
-	y.Cfg.PeerStore = nil
+	var extra []SysOpt
+	if scn.Store {
+		extra = append(extra, WithPeerStore())
+	}
+	cfgName := scn.Cfg
+	if cfgName == "" {
+		cfgName = "plain"
+	}
+	y := newTblSys(tblCfgs[cfgName], extra...)
 	for _, l := range tblStarts[scn.Start] {
 		if _, err := y.apply(l); err != nil {
 			return nil, "HARNESS: " + err.Error()
 		}
 	}
-	e := &linEnv{y: y, pend: map[string]string{}, tokens: map[string]string{}, dropTo: map[string]bool{}}
-	for _, ev := range scn.Events {
+	e := &linEnv{y: y, post: scn.Post, testTokens: scn.Tokens, pend: map[string]string{}, tokens: map[string]string{}, dropTo: map[string]bool{}}
+	for _, ev := range append(append([]string(nil), scn.Pre...), scn.Events...) {
 		f := strings.Split(ev, ":")
 		if f[0] == "B" {
 			e.dropTo[y.peers[f[1]].Addr.String()] = true
@@ -81,6 +96,10 @@ func linSetup(scn *linScn) (*linEnv, string) {
 				e.tokens[f[1]] = y.fetchToken(p.Addr, "get_peers")
 			}
 		}
+	}
+	for _, ev := range scn.Pre {
+		e.do(ev)
+		synctest.Wait()
 	}
 	for _, pn := range scn.Pend {
 		p := y.peers[pn]
@@ -107,24 +126,43 @@ func (e *linEnv) do(ev string) {
 	switch f[0] {
 	case "Q":
 		y.Conn.InjectSync(p.Addr, sim.Query("lq"+f[1], "ping", sim.M{"id": sim.IDStr(p.ID)}))
-	case "G":
-		y.Conn.InjectSync(p.Addr, sim.Query("lg"+f[1], "find_node", sim.M{"id": sim.IDStr(p.ID), "target": sim.IDStr(sim.InBucket(sim.Root, 0, 55))}))
+	case "G": // G:<peer>[:<bucket of the target>]
+		b := 0
+		if len(f) > 2 {
+			fmt.Sscanf(f[2], "%d", &b)
+		}
+		y.Conn.InjectSync(p.Addr, sim.Query("lg"+f[1], "find_node", sim.M{"id": sim.IDStr(p.ID), "target": sim.IDStr(sim.InBucket(sim.Root, b, 55))}))
 	case "A":
 		y.S.AddNode(krpc.NodeInfo{ID: p.ID, Addr: krpc.NodeAddr{IP: p.Addr.IP, Port: p.Addr.Port}})
 	case "R":
 		y.Conn.InjectSync(p.Addr, sim.Reply(e.pend[f[1]], sim.M{"id": sim.IDStr(p.ID)}))
+	case "F": // the exported candidate filter every traversal calls (without the server lock)
+		var ami types.AddrMaybeId
+		ami.FromNodeInfo(krpc.NodeInfo{ID: p.ID, Addr: krpc.NodeAddr{IP: p.Addr.IP, Port: p.Addr.Port}})
+		y.S.TraversalNodeFilter(ami)
 	case "S":
 		y.S.Stats()
 		y.S.Nodes()
 		y.S.NumNodes()
 	case "B":
 		y.S.SetIPBlockList(Blocklist{cidr(p.Addr.IP.String() + "/32")})
-	case "N":
+	case "N": // N:<peer>:<port>[:<infohash A|B>]
 		var port int
 		fmt.Sscanf(f[2], "%d", &port)
-		y.Conn.InjectSync(p.Addr, sim.Query("ln"+f[1]+f[2], "announce_peer", sim.M{"id": sim.IDStr(p.ID), "info_hash": sim.IDStr(ihA), "port": port, "token": e.tokens[f[1]]}))
-	case "V":
-		y.Conn.InjectSync(srcProbe, sim.Query("lv", "get_peers", sim.M{"id": sim.IDStr(peerID), "info_hash": sim.IDStr(ihA)}))
+		ih := "A"
+		if len(f) > 3 {
+			ih = f[3]
+		}
+		y.Conn.InjectSync(p.Addr, sim.Query("ln"+f[1]+f[2], "announce_peer", sim.M{"id": sim.IDStr(p.ID), "info_hash": sim.IDStr(ihOf(ih)), "port": port, "token": e.tokens[f[1]]}))
+	case "V": // V[:<infohash A|B>[:<source>]]
+		ih, src := "A", srcProbe
+		if len(f) > 1 {
+			ih = f[1]
+		}
+		if len(f) > 2 {
+			src = sources[f[2]]
+		}
+		y.Conn.InjectSync(src, sim.Query("lv"+ih, "get_peers", sim.M{"id": sim.IDStr(peerID), "info_hash": sim.IDStr(ihOf(ih)), "want": []interface{}{"n4", "n6"}}))
 	}
 }
 
@@ -132,6 +170,10 @@ func (e *linEnv) do(ev string) {
 func (e *linEnv) observe() (o linObs) {
 	y := e.y
 	synctest.Wait()
+	for _, ev := range e.post {
+		e.do(ev)
+		synctest.Wait()
+	}
 	y.settle()
 	synctest.Wait()
 	s := y.snap()
@@ -185,6 +227,8 @@ func (e *linEnv) observe() (o linObs) {
 					s, _ := v.(string)
 					if len(s) == 6 {
 						ps = append(ps, fmt.Sprintf("%d.%d.%d.%d:%d", s[0], s[1], s[2], s[3], int(s[4])<<8|int(s[5])))
+					} else {
+						ps = append(ps, fmt.Sprintf("%x", s))
 					}
 				}
 				sort.Strings(ps)
@@ -199,10 +243,36 @@ func (e *linEnv) observe() (o linObs) {
 	}
 	sort.Strings(rs)
 	o.Replies = strings.Join(rs, ",")
+	// every token handed out in a get_peers reply is put to use by its recipient (one at a time):
+	// it must be honoured
+	if e.testTokens {
+		var tl []string
+		for i, w := range DecodeWrites(y.Conn.WritesSince(e.mark)) {
+			tok, ok := sim.Str(w.R(), "token")
+			if w.Y() != "r" || !ok {
+				continue
+			}
+			before := y.Conn.NumWrites()
+			y.Conn.InjectSync(w.To, sim.Query(fmt.Sprintf("tk%d", i), "announce_peer", sim.M{"id": sim.IDStr(peerID), "info_hash": sim.IDStr(ihB), "port": 6000, "token": tok}))
+			synctest.Wait()
+			verdict := "refused"
+			for _, a := range DecodeWrites(y.Conn.WritesSince(before)) {
+				if a.Y() == "r" && a.To.String() == w.To.String() {
+					verdict = "honoured"
+				}
+			}
+			tl = append(tl, fmt.Sprintf("token->%s %s", w.To, verdict))
+		}
+		sort.Strings(tl)
+		o.Replies += " tokens[" + strings.Join(tl, ",") + "]"
+	}
 	if ps := y.Cfg.PeerStore; ps != nil {
 		var l []string
 		for _, na := range ps.GetPeers(ihA) {
-			l = append(l, na.String())
+			l = append(l, "A:"+na.String())
+		}
+		for _, na := range ps.GetPeers(ihB) {
+			l = append(l, "B:"+na.String())
 		}
 		sort.Strings(l)
 		o.Peers = strings.Join(l, ",")
@@ -355,10 +425,25 @@ var linScenarios = map[string][]linScn{
 		{Name: "reply-vs-blocklist", Start: "empty", Pend: []string{"n1"}, Events: []string{"R:n1", "B:n1"}},
 		{Name: "two-replies-full-bucket", Start: "full8nevr", Pend: []string{"n1", "n2"}, Events: []string{"R:n1", "R:n2"}},
 		{Name: "query-vs-blocklist", Start: "empty", Events: []string{"Q:n1", "B:n1", "Q:n2"}},
+		// a traversal vets a candidate while the blocklist is replaced; datagrams that arrive after
+		// both have returned are judged by the new list
+		{Name: "filter-vs-blocklist", Start: "empty", Events: []string{"F:n1", "B:n1"}, Post: []string{"Q:n1", "Q:n2"}},
+		{Name: "filter-vs-blocklist-replaced", Cfg: "block", Start: "empty", Events: []string{"F:n1", "B:n1"}, Post: []string{"Q:n1", "Q:n2"}},
+	},
+	"C10": {
+		{Name: "two-token-issues", Start: "empty", Store: true, Tokens: true, Events: []string{"V:A:probe", "V:B:v6"}},
+		{Name: "issue-vs-use", Start: "empty", Store: true, Tokens: true, Pre: []string{"N:n1:7001:A"}, Events: []string{"V:A:probe", "N:n1:7009:A", "V:A:v4"}},
 	},
 	"C09": {
 		{Name: "find-node-vs-newcomer", Start: "empty", Pend: []string{"n1"}, Events: []string{"G:c1", "R:n1"}},
 		{Name: "find-node-vs-two", Start: "full8good", Pend: []string{"n1"}, Events: []string{"G:c1", "R:n1", "Q:n2"}},
+		// two askers, targets in different buckets, contacts in both buckets: each reply carries the
+		// list selected for its own target
+		{Name: "two-targets", Start: "full8good", Pre: []string{"A:c1"}, Pend: []string{"c1"}, Events: []string{"R:c1", "G:n1:0", "G:n2:1"}},
+	},
+	"C11": {
+		{Name: "two-infohashes", Start: "empty", Store: true, Pre: []string{"N:n1:7001:A", "N:n2:7002:A", "N:v6:7003:B"}, Events: []string{"V:A:probe", "V:B:v6"}},
+		{Name: "announce-vs-get", Start: "empty", Store: true, Pre: []string{"N:n1:7001:A"}, Events: []string{"N:n2:7002:A", "V:A:probe", "V:B:probe"}},
 	},
 }
 
@@ -422,7 +507,7 @@ func linReplay(prop string) func(t *testing.T, c explore.Case) explore.Result {
 }
 
 func init() {
-	for _, p := range []string{"C05", "C06", "C09"} {
+	for _, p := range []string{"C05", "C06", "C09", "C10", "C11"} {
 		linTiers[p] = linTier(p)
 		linReplays[p] = linReplay(p)
 	}
